@@ -318,12 +318,9 @@ class WebsocketSession(object):
                 next_ping += ping_rate
             self._next_ping = next_ping
             try:
-                if self.websocket.state is self._state:
-                    self.websocket.send_ping()
-                else:
-                    # connect() was called again since; this loop keeps
-                    # its own connection alive, not the new one
-                    self.send(Opcode.PING, b'')
+                # On this loop's own connection (connect() may have been
+                # called again since)
+                self.websocket.send_ping(state=self._state)
             except errors.WebSocketError:
                 pass  # If the websocket has gone away
 
@@ -339,7 +336,12 @@ class WebsocketSession(object):
     def _check_close_timeout(self, close_timeout, session_time):
         """Check if the close timeout was tripped."""
         if close_timeout:
-            sent_close_time = self.websocket.sent_close_time
+            if getattr(self.websocket, 'state', self._state) is self._state:
+                sent_close_time = self.websocket.sent_close_time
+            else:
+                # connect() was called again since; the close that counts
+                # is the one sent on this loop's own connection
+                sent_close_time = self._state.sent_close_time
             if sent_close_time is None:
                 return
             if session_time >= sent_close_time + close_timeout:
